@@ -89,6 +89,7 @@ func main() {
 		maxDir  = flag.Uint64("maxdir", 100, "configured directory limit (values below 100 are clamped to 100 by the code)")
 		rootSty = flag.Int("rootstyle", 0, "0: clean root paths; 1: trailing slash, doubled slash, /./ (the same directories, spelled differently)")
 		waves   = flag.Int("waves", 0, "N > 0: alternate N autocommit writes of fresh keys with N/2 deletions of the oldest keys and a collection (directories fill up, regain room, fill up again)")
+		gcEvery = flag.Duration("gcperiod", time.Hour, "period of the database's own background collector (0s: it collects continuously)")
 		reAfter = flag.Int("reopenafter", 0, "no reopen before this step (lets directories fill up one after the other first)")
 	)
 	flag.Parse()
@@ -104,6 +105,7 @@ func main() {
 	defer os.RemoveAll(dir)
 	cfg := drv.NewConfig(dir, *roots)
 	cfg.Storage.MaxDirCount = *maxDir
+	cfg.Storage.GCPeriod = *gcEvery
 	if *rootSty == 1 {
 		for i, r := range cfg.Storage.RootDirs {
 			d, b := filepath.Split(r)
@@ -435,7 +437,9 @@ func main() {
 			}
 		}
 		ev.Nf = -1
-		if ev.Idle {
+		if ev.Idle && *gcEvery >= time.Minute {
+			// with the database's own collector running all the time the pool is never quiescent for good: between its
+			// taking versions off the lists and handing their files to the pool nothing shows that work is pending
 			ev.Fs = ts.diff(d.Roots(), rootIdx)
 			ev.Nf = len(ts.files)
 		}
